@@ -2291,6 +2291,8 @@ def autopop_api(rng, name, violation=None, plant=True, subpkg=False, selective=F
     fo.options.Extensions[field_info_pb2.field_info].format = field_info_pb2.FieldInfo.IPV4
     q.field("sub_id", P + ".Sub", uuid4=True)
     q.field("third_id", "string", uuid4=True)
+    # an ordinary field that happens to be called `uuid` (flattened by Stamp below)
+    q.field("uuid", "string")
     # a LIST of strings annotated UUID4 is not "a string field": it cannot hold one request id
     q.field("id_list", "string", repeated=True, uuid4=True)
     from google.api import field_behavior_pb2 as fb
@@ -2312,6 +2314,8 @@ def autopop_api(rng, name, violation=None, plant=True, subpkg=False, selective=F
     # a long-running method is a unary RPC too: its request ids are populated like any other
     s.rpc("StartJob", P + ".Req", ".google.longrunning.Operation", http={"post": "/v1/{name=things/*}:startJob"}, body="*", lro=("Reply", "Sub"))
     s.rpc("Purge", P + ".Req", ".google.protobuf.Empty", http={"post": "/v1/{name=things/*}:purge"}, body="*")
+    # a flattened parameter named like the module the population code uses
+    s.rpc("Stamp", P + ".Req", P + ".Reply", http={"post": "/v1/{name=things/*}:stamp"}, body="*", sigs=["name,uuid"])
     S = f"{pkg}.Ids"
     settings = [
         {"selector": f"{S}.Create", "auto_populated_fields": ["request_id", "opt_request_id"]},
@@ -2319,6 +2323,7 @@ def autopop_api(rng, name, violation=None, plant=True, subpkg=False, selective=F
         {"selector": f"{S}.Patch", "auto_populated_fields": ["opt_request_id", "request_id"]},
         {"selector": f"{S}.StartJob", "auto_populated_fields": rng.choice([["request_id"], ["opt_request_id", "request_id"]])},
         {"selector": f"{S}.Purge", "auto_populated_fields": ["request_id", "third_id"]},
+        {"selector": f"{S}.Stamp", "auto_populated_fields": ["request_id"]},
     ]
     bad = {
         "unknown_method": {"selector": f"{S}.Nope", "auto_populated_fields": ["request_id"]},
